@@ -403,7 +403,7 @@ func init() {
 		ID:    "C19",
 		Level: "exploration",
 		Rule: "differential over the stub-cycle engine: scenario = options + discovery + explorer table + a victim replica scripted for 4-5 cycles + a hostile replica (shard listing fails, scaling fails early/late, entirely unready, out of sync, a different placement of the same targets incl. in-transfer copies with larger series than the explorer's estimate); " +
-			"the victim is run alone (4 repetitions; victim scripts are generated under structural conditions that make its decisions independent of map order (first-fit mode, at most one unscraped healthy target per cycle, overloaded or non-first shards report at most one target); cases that still show more than one outcome in 30 repetitions are discarded and counted) and next to the hostile replica in both orders (3 repetitions each) through the real Coordinator.Run; the canonical per-cycle trace of everything the victim's shards and manager receive (GET/POST with target lists as sets, ChangeScale arguments) must be identical; " +
+			"the victim is run alone (4 repetitions; victim scripts are generated under structural conditions that make its decisions independent of map order (first-fit mode, at most one unscraped healthy target per cycle, overloaded or non-first shards report at most one target); cases that still show more than one outcome in 30 repetitions are discarded and counted) and next to the hostile replica in both orders (3 repetitions each) through the real Coordinator.Run; the canonical per-cycle trace of everything the victim's shards and manager receive (GET/POST with target lists as sets, ChangeScale arguments) must be identical; a mismatch is re-examined with 100 repetitions of the victim alone: mixed outcomes discard the case, 100 of 100 equal to each other but different from before are reported as state leaking between replicas, and the victim alone is repeated after every case for the same test; " +
 			"directed family: a target the victim cannot place in an early cycle and can place later while the other replica holds it in every state/series/health combination; non-trivial = case not discarded; distinct = victim script hash + hostile script hash",
 		Assumptions: []string{
 			"the explorer stub hands out one status object per target for the whole run, as Explore.Get does",
